@@ -176,6 +176,9 @@ func runClient(sc ascenario) *result {
 		conns []*aconn
 		wg    sync.WaitGroup
 		stop  = make(chan struct{})
+		// connections whose handshake the scripted side could not complete: the
+		// channel may then be in TRANSIENT_FAILURE and fail RPCs at pick time
+		startFailures int
 	)
 	// acceptor: every dial of the channel becomes a scripted server connection
 	accDone := make(chan struct{})
@@ -190,12 +193,12 @@ func runClient(sc ascenario) *result {
 					init = append(init, http2.Setting{ID: http2.SettingMaxConcurrentStreams, Val: uint32(sc.MCS)})
 				}
 				mu.Lock()
-				ac := &aconn{idx: len(conns), peer: p, streams: map[uint32]*attempt{}, validN: -1, sealedAt: -1}
+				idx := len(conns) // only this goroutine appends
+				mu.Unlock()
+				ac := &aconn{idx: idx, peer: p, streams: map[uint32]*attempt{}, validN: -1, sealedAt: -1}
 				for _, t := range sc.Trap {
 					ac.trap = ac.trap || t == ac.idx
 				}
-				conns = append(conns, ac)
-				mu.Unlock()
 				if ac.trap {
 					fired := false // reader goroutine only
 					p.OnFrame = func(e wire.Entry) {
@@ -207,8 +210,15 @@ func runClient(sc ascenario) *result {
 				}
 				if err := p.Start(init...); err != nil {
 					c.Close()
+					mu.Lock()
+					startFailures++
+					mu.Unlock()
 					continue
 				}
+				// visible to the script only once the server preface (SETTINGS) is written
+				mu.Lock()
+				conns = append(conns, ac)
+				mu.Unlock()
 			case <-stop:
 				return
 			}
@@ -578,6 +588,7 @@ func runClient(sc ascenario) *result {
 	// ---- final verdicts per RPC ----
 	cs := snapshot()
 	mu.Lock()
+	dialsAllServed := startFailures == 0 && fx.Dials() == len(cs)
 	retried, unavailable, okCount := int64(0), int64(0), int64(0)
 	for _, r := range rpcs {
 		var acc []*attempt
@@ -648,7 +659,7 @@ func runClient(sc ascenario) *result {
 					v("accepted-stream-failed", "rpc %d failed with %q although its stream %d on conn %d is not above the GOAWAY id(s) %v and the scripted server completed it with OK: %s", r.idx, r.errText, a.id, a.conn, c.goaways, desc())
 				}
 			}
-			if len(acc) == 0 && !onPoisoned && r.clean && len(r.attempts) == 1 && r.attempts[0].conn == r.startConn {
+			if len(acc) == 0 && !onPoisoned && dialsAllServed && r.clean && len(r.attempts) == 1 && r.attempts[0].conn == r.startConn {
 				v("unprocessed-not-retried", "rpc %d failed with %q: its first and only attempt (conn %d stream %d) was above GOAWAY id %v, i.e. unprocessed, and must be retried transparently once", r.idx, r.errText, r.attempts[0].conn, r.attempts[0].id, cs[r.attempts[0].conn].goaways)
 			}
 		default:
